@@ -641,6 +641,14 @@ func TestVerifC08(t *testing.T) {
 			cand := func(c int, stream string) hdOp {
 				return hdOp{K: "media", C: c, Mk: "candidate", Stream: stream, To: hdToSession(c)}
 			}
+			// the other kinds decided by IsAllowedToSend: answer / endOfCandidates (for the own stream, as a candidate),
+			// sendoffer (to another session: that session subscribes to the sender's stream)
+			own := func(mk string, c int, stream string) hdOp {
+				return hdOp{K: "media", C: c, Mk: mk, Stream: stream, Media: 3, To: hdToSession(c)}
+			}
+			sendoffer := func(c, to int, stream string) hdOp {
+				return hdOp{K: "media", C: c, Mk: "sendoffer", Stream: stream, To: hdToSession(to)}
+			}
 			for _, set := range [][]int{{4}, {}, {0}, {1}, {0, 1}, {3}, {2}, {3, 2}, {0, 2}, {1, 2, 4}, {0, 1, 2, 3, 4, 5}} {
 				table := func() []hdOp {
 					var ops []hdOp
@@ -651,9 +659,16 @@ func TestVerifC08(t *testing.T) {
 						} else {
 							ops = append(ops, offer(1, st, 1), offer(1, st, 2), offer(1, st, 3), offer(1, st, 8), offer(1, st, 16+1))
 						}
-						ops = append(ops, cand(1, st))
+						ops = append(ops, cand(1, st), own("answer", 1, st), own("endOfCandidates", 1, st),
+							sendoffer(1, 2, st), sendoffer(1, 2, st), sendoffer(1, 1, st))
 					}
 					// a candidate for somebody else's stream is not a matter of publish permissions
+					ops = append(ops, own("answer", 2, "screen"), own("endOfCandidates", 2, "video"),
+						hdOp{K: "media", C: 1, Mk: "answer", Stream: "screen", Media: 3, To: hdToSession(2)}, hdOp{K: "media", C: 1, Mk: "endOfCandidates", Stream: "video", To: hdToSession(2)},
+						// sendoffer the other way round (session 2 has every permission), and to an id that is no session
+						sendoffer(2, 1, "screen"), sendoffer(2, 1, "video"),
+						hdOp{K: "media", C: 1, Mk: "sendoffer", Stream: "screen", To: &hdRecipient{T: "session", Id: &hdIdRef{T: "other", O: 1}}},
+						hdOp{K: "media", C: 1, Mk: "sendoffer", Stream: "video", To: &hdRecipient{T: "session", Id: &hdIdRef{T: "other", O: 1}}})
 					return append(ops, cand(2, "screen"), cand(2, "video"),
 						hdOp{K: "media", C: 1, Mk: "candidate", Stream: "screen", To: hdToSession(2)}, hdOp{K: "media", C: 1, Mk: "candidate", Stream: "video", To: hdToSession(2)})
 				}
